@@ -1,7 +1,7 @@
 """Adapters for request IDs, service-1 verification reports and enumerated packet fields."""
 from __future__ import annotations
 
-from .core import outcome, octs, rxbuf, decoded, scramble, owned
+from .core import outcome, octs, rxbuf, decoded, scramble, owned, enum_arg
 from .ops_ecss import tm_proj, mk_tc
 from .probe import decode_other
 
@@ -142,7 +142,7 @@ def mk_srv1(a):
             return S.create_completion_success_tm(p["apid"], tc, stamp)
         return S.create_completion_failure_tm(p["apid"], tc, fail, stamp)
     vp = S.VerificationParams(mk_req(p["req"]), step, fail)
-    return S.Service1Tm(apid=p["apid"], subservice=S.Subservice(p["sub"]), timestamp=stamp, verif_params=vp,
+    return S.Service1Tm(apid=p["apid"], subservice=enum_arg(S.Subservice, p["sub"], p["apid"], p["seq"]), timestamp=stamp, verif_params=vp,
                         seq_count=p["seq"], packet_version=p["ver"], space_time_ref=p["timeref"],
                         destination_id=p["dest"])
 
